@@ -1,6 +1,7 @@
 (* C12 — ending or detaching a URR returns its final usage exactly once. Statements only. *)
 From Coq Require Import String List NArith ZArith Bool.
-From GoUpf Require Import Bytes FlagsGen ConstsGen HandlerGen Pfcp PfcpBase PfcpSess PfcpCat PfcpUsage PfcpRef.
+From GoUpf Require Import Bytes FlagsGen ConstsGen HandlerGen Pfcp PfcpBase PfcpSess PfcpClose PfcpTable PfcpDelete
+  PfcpStep PfcpProps PfcpCat PfcpUsage PfcpRef PfcpQueue.
 Import ListNotations.
 Local Open Scope N_scope.
 
@@ -25,6 +26,15 @@ Print Assumptions C12_request_keeps_refcounts.
 Theorem C12_orders_once : (occurs CPDR est_order <= 1)%nat /\ (occurs CPDR mod_order <= 1)%nat.
 Proof. exact orders_once. Qed.
 Print Assumptions C12_orders_once.
+
+(* at the server: a Session Modification whose Create PDR IEs are well-formed for the addressed session leaves
+   that session with exact reference counts (run_categories in the generated order, then the emission) *)
+Theorem C12_modification_keeps_refcounts : forall w peer seq seid o e s,
+  WInv w -> live w seid s -> RefInv s -> cpdr_wf o s ->
+  exists w' out, handle_mod w peer seq seid IeAbsent o e = Ok (w', out) /\
+    (w' = w \/ exists s', live w' seid s' /\ RefInv s').
+Proof. exact handle_mod_RefInv. Qed.
+Print Assumptions C12_modification_keeps_refcounts.
 
 (* per operation *)
 Theorem C12_create_pdr : forall e o c, RefInv (c_s c) -> pdr_fresh o (c_s c) -> RefInv (c_s (create_pdr e o c)).
